@@ -40,6 +40,7 @@ class Family:
     def __init__(self, name, mk, run, witnesses=(), on_panic=None, precondition=None, hash_order="insertion", target_prefixes=None, limit=None, setup=None):
         self.name = name; self.mk = mk; self.run = run; self.witnesses = tuple(witnesses); self.on_panic = on_panic
         self.precondition = precondition; self.hash_order = hash_order; self.target_prefixes = target_prefixes
+        self.partition = False      # discharge the partition obligation (explored paths cover the whole bounded input space) with z3 and cvc5
         self.limit = limit          # optional cap on explored paths per work item (reported as truncated in the evidence)
         self.setup = setup          # optional callable(eng) run before exploring (engine mode switches)
 
@@ -50,6 +51,7 @@ def _worker(job):
     eng.hash_order = fam.hash_order
     eng.on_panic = fam.on_panic
     if fam.setup: fam.setup(eng)
+    eng.capture_pc = bool(fam.partition); eng.captured = []
     q0, d0, s0, st0 = eng.nqueries, eng.ndecisions, eng.solver_s, eng.nsteps
     try:
         res, dt = eng.explore(fam.mk, fam.run, prefix=prefix, limit=fam.limit)
@@ -59,7 +61,7 @@ def _worker(job):
         return {"fi": fi, "error": "inconclusive: %s" % e}
     except Exception as e:
         return {"fi": fi, "error": "engine error: %s\n%s\nMIR stack: %s" % (e, traceback.format_exc()[-1500:], getattr(e, "mir_stack", [])[-5:])}
-    out = {"fi": fi, "paths": [], "truncated": bool(fam.limit and len(res) >= fam.limit), "queries": eng.nqueries - q0, "decisions": eng.ndecisions - d0, "solver_s": eng.solver_s - s0, "steps": eng.nsteps - st0}
+    out = {"fi": fi, "paths": [], "pcs": list(eng.captured), "truncated": bool(fam.limit and len(res) >= fam.limit), "queries": eng.nqueries - q0, "decisions": eng.ndecisions - d0, "solver_s": eng.solver_s - s0, "steps": eng.nsteps - st0}
     for kind, dec, r in res:
         if kind == "panic" and not isinstance(r, dict):
             r = {"outcome": "panic", "violations": [{"what": "panic: " + r, "case": None}]}
@@ -91,6 +93,7 @@ def explore_families(eng, fams, log=print, deadline=None):
             if "error" in r:
                 pool.terminate(); return None, None, None, "family %s: %s" % (fams[r["fi"]].name, r["error"])
             s = summ[r["fi"]]
+            if r.get("pcs"): s.setdefault("pcs", []).extend(r["pcs"])
             if r.get("truncated"): s["truncated"] = True
             s["queries"] += r["queries"]; s["decisions"] += r["decisions"]; s["solver_s"] += r["solver_s"]; s["steps"] += r["steps"]
             for nd, pr in r["paths"]:
@@ -101,6 +104,27 @@ def explore_families(eng, fams, log=print, deadline=None):
                 for v in pr.get("violations", []): viol.append(dict(v, family=fams[r["fi"]].name))
                 if pr.get("validate") is not None: validate.append(dict(pr["validate"], family=fams[r["fi"]].name))
     return summ, viol, validate, None
+
+def partition_obligation(name, pcs, workdir):
+    """precondition and not OR(path conditions) must be unsatisfiable; decided by z3 (python API), /usr/bin/z3 and cvc5 on the exported SMT-LIB2"""
+    t0 = time.time()
+    pre = z3.parse_smt2_string(pcs[0][0])
+    paths = [z3.And(*list(z3.parse_smt2_string(p))) if len(z3.parse_smt2_string(p)) else z3.BoolVal(True) for _, p in pcs]
+    goal = z3.And(*(list(pre) + [z3.Not(z3.Or(*paths))]))
+    s = z3.Solver(); s.add(goal); r = str(s.check())
+    os.makedirs(workdir, exist_ok=True)
+    fn = os.path.join(workdir, "partition_%s.smt2" % re.sub(r"[^A-Za-z0-9_.-]", "_", name))
+    txt = s.to_smt2().replace("(set-info :status unsat)", "").replace("(set-info :status sat)", "")
+    open(fn, "w").write("(set-logic ALL)\n" + txt)
+    res = {"family": name, "paths": len(pcs), "z3_api": r}
+    for tool, cmd in (("z3_4.8.12", ["/usr/bin/z3", fn]), ("cvc5", ["cvc5", "--lang", "smt2", fn])):
+        try:
+            p = subprocess.run(cmd, stdout=subprocess.PIPE, stderr=subprocess.STDOUT, timeout=300, text=True)
+            out = p.stdout.strip().split("\n")
+            res[tool] = "error" if any("(error" in l for l in out) else (out[0] if out else "?")
+        except Exception as ex: res[tool] = "unavailable: %s" % type(ex).__name__
+    res["s"] = round(time.time() - t0, 2)
+    return res
 
 # ------------------------------------------------------------------------------------------------ replay binary
 REPLAY_DIR = os.path.join(VERIF, "replay")
@@ -220,6 +244,16 @@ def _main(check):
         for k, vs in byc.items():
             print("  CLASS %s: %d candidates" % (k, len(vs)))
             for v in vs[:int(os.environ["VERIF_DEBUG"])]: print("     CAND", v.get("family"), v["what"][:int(os.environ.get("VERIF_DEBUG_W", "300"))])
+    # partition obligations (the explored paths cover the bounded input space)
+    partitions = []
+    for f, s in zip(fams, summ):
+        if f.partition and s.get("pcs"):
+            pr = partition_obligation(f.name, s["pcs"], os.path.join(mirdump.WORK, "smt"))
+            partitions.append(pr)
+            verdicts = [pr[k] for k in ("z3_api", "z3_4.8.12", "cvc5") if not str(pr.get(k, "")).startswith("unavailable")]
+            if any(v != "unsat" for v in verdicts):
+                print("INCONCLUSIVE property=%s: partition obligation of family %s not discharged (explored paths do not provably cover the input space, or the solvers disagree): %s" % (pid, f.name, pr)); sys.exit(2)
+    if partitions: log("partition obligations: %d families, z3 and cvc5 agree on unsat" % len(partitions))
     # witnesses (vacuity guard)
     missing = []
     for f, s in zip(fams, summ):
@@ -299,7 +333,7 @@ def _main(check):
         "mir_steps": sum(s["steps"] for s in summ),
         "functions_encoded": getattr(check, "FUNCTIONS", []), "models_used": getattr(check, "MODELS", []),
         "bounds": getattr(check, "BOUNDS", {}).get(tier, getattr(check, "BOUNDS", {})), "outside_bounds": getattr(check, "OUTSIDE", []),
-        "witnesses": {k: allout[k] for k in sorted(allout)},
+        "witnesses": {k: allout[k] for k in sorted(allout)}, "partition_check": partitions,
         "source_hash": info["source_hash"], "mir_dump_s": round(info["dump_s"], 1), "nightly": info["nightly"],
         "candidates": len(viol), "confirmed_on_real_build": len(confirmed), "not_reproduced": len(unconfirmed),
         "known_findings_hit": sorted(known_hits), "exhaustive": not any(s.get("truncated") for s in summ),
